@@ -549,6 +549,12 @@ func c11SignOCI(c *Ctx, W *ssa.Function) {
 		}
 	}
 	c.Check(okAnn, "provenance/push-annotations", "the manifest annotations pushed are generated from the SignerInfo Signer.Sign returned", w.InstrPos(push), "annotations are "+desc(pa[4]))
+	if gen != nil {
+		if G := staticCallee(gen); G != nil && w.IsProductFn(G) {
+			c11AnnotationsWin(c, G)
+		}
+	}
+	probeAgreement(c, W, "probe")
 	// success returns the resolved descriptor and the pushed manifest descriptor
 	// (c) gates before Sign
 	g := fi.GuardsOf(sign)
@@ -748,4 +754,100 @@ func c11Annotations(c *Ctx, G *ssa.Function) {
 	}
 	c.Check(okT && okLoop, "annotations/thumbprints", "the thumbprint annotation is the JSON list of hex(sha256(cert.Raw)) over every certificate of the signer's chain, under the constant thumbprint key", site, fmt.Sprintf("key/value ok=%v, per-certificate sha256 loop=%v", okT, okLoop))
 	c.Check(okC, "annotations/created", "the created annotation is the signing time of the SignerInfo in RFC 3339, under the OCI created key", site, "")
+}
+
+// c11Annotations: the generated manifest annotations give the chain thumbprints and the signing time,
+// and nothing written into the map afterwards (signer-supplied annotations) can replace them.
+func c11AnnotationsWin(c *Ctx, G *ssa.Function) {
+	w := c.W
+	c.SeenFn(G.String())
+	fi := w.Info(G)
+	tp, _ := w.constString("internal/envelope", "AnnotationX509ChainThumbprint")
+	cr, _ := w.depConstString("github.com/opencontainers/image-spec/specs-go/v1", "AnnotationCreated")
+	var sp string
+	for _, p := range G.Params {
+		if namedOf(p.Type()) == "core/signature.SignerInfo" {
+			sp = "param:" + p.Name()
+		}
+	}
+	s := w.Summarize(G, Mode{Kind: mErr})
+	c.Evals += s.States
+	type upd struct {
+		mu  *ssa.MapUpdate
+		key string
+	}
+	required := map[string]func(string) bool{
+		fmt.Sprintf("const:%q", tp): func(v string) bool { return strings.HasPrefix(v, "convert(call:encoding/json.Marshal(") || strings.HasPrefix(v, "call:encoding/json.Marshal(") },
+		fmt.Sprintf("const:%q", cr): func(v string) bool {
+			return strings.HasPrefix(v, "call:(time.Time).Format(call:ngo/internal/envelope.SigningTime("+sp+")#0,")
+		},
+	}
+	ok := len(s.Exits) > 0 && tp != "" && cr != "" && sp != ""
+	detail := ""
+	for _, e := range s.Exits {
+		M := e.Ret.Results[0]
+		// writes into M
+		var mine []upd
+		var others []ssa.Instruction
+		for _, b := range G.Blocks {
+			for _, in := range b.Instrs {
+				switch x := in.(type) {
+				case *ssa.MapUpdate:
+					if x.Map != M {
+						continue
+					}
+					k := desc(x.Key)
+					if chk, isReq := required[k]; isReq && chk(desc(x.Value)) {
+						mine = append(mine, upd{x, k})
+					} else {
+						others = append(others, in)
+					}
+				case *ssa.Call:
+					if _, isB := x.Call.Value.(*ssa.Builtin); isB {
+						continue
+					}
+					for _, a := range x.Call.Args {
+						if a == M {
+							others = append(others, in)
+						}
+					}
+				}
+			}
+		}
+		for k := range required {
+			var u *ssa.MapUpdate
+			for _, m := range mine {
+				if m.key == k {
+					u = m.mu
+				}
+			}
+			if u == nil {
+				ok = false
+				detail = "the returned map is not given " + k + " from the signer info"
+				continue
+			}
+			// on every path to the return
+			cut := map[edgeKey]bool{}
+			cutInto(fi, u.Block(), cut)
+			if u.Block().Index != 0 && fi.reachHit(entryState(), cut, blocksOf(e.Ret)) && u.Block() != e.Ret.Block() {
+				ok = false
+				detail = k + " is not set on every path to the return"
+			}
+			// no other write into the map can follow it
+			for _, o := range others {
+				after := false
+				if o.Block() == u.Block() {
+					after = instrIndex(o) > instrIndex(u)
+				} else {
+					after = fi.reachHit([]state{{u.Block().Index, 0, -1}}, nil, blocksOf(o))
+				}
+				if after {
+					ok = false
+					detail = "after " + k + " is set, " + w.InstrPos(o) + " writes into the same map (e.g. copies signer-supplied annotations over the computed ones)"
+				}
+			}
+		}
+	}
+	c.Evals++
+	c.Check(ok, "annotations/computed-values-win", "the manifest annotations returned carry the SHA-256 thumbprints of the signing chain and the signing time computed from the SignerInfo, set on every path and after any signer-supplied annotation (nothing written into the map later can replace them)", w.FnPos(G), detail)
 }
